@@ -597,7 +597,7 @@ func runC03(res *Result, tier string, rnd *Rand, replay string) {
 	if replay == "" {
 		nGen := 60
 		if tier == "thorough" {
-			nGen = 1500
+			nGen = 600
 		}
 		for i := 0; i < nGen; i++ {
 			txt := genMixedSpec(rnd)
